@@ -6,14 +6,17 @@ from . import _compose, mp_trace
 LEAN_MODULES = ["TorchDataVerif.Props.MP"]
 T = "TDV.MP."
 THEOREMS_BY_PROP = {
-    "C01": ["snapshot_fields", "snapshot_fields_map", "take_snapshot_assertion_holds_map", "delta_at_yield_map", "deterministic"],
+    "C01": ["snapshot_fields", "snapshot_fields_map", "snapshot_fields_map_errFree", "take_snapshot_assertion_holds_map",
+            "delta_at_yield_map", "deterministic"],
     "C03": ["yields_prefix_ref", "yields_prefix_ref_map", "yields_prefix_ref_iter", "epoch_complete", "epoch_complete_map",
             "epoch_complete_iter", "progress", "progress_map", "variant_map", "variant_iter"],
-    "C05": ["deterministic", "deterministic_map", "deterministic_iter", "snapshot_fields", "snapshot_fields_map", "delta_at_yield_map",
-            "yields_prefix_ref"],
+    "C05": ["deterministic", "deterministic_map", "deterministic_iter", "snapshot_fields", "snapshot_fields_map",
+            "snapshot_fields_map_errFree", "take_snapshot_assertion_holds_map", "delta_at_yield_map", "yields_prefix_ref"],
     "C09": ["kill_safe", "kill_safe_map", "kill_detected", "progress"],
-    "C10": ["error_position_partial_map", "error_position_statement_false", "c10a_observed", "error_position_prefix_iter",
-            "take_snapshot_assertion_holds_map"],
+    # full strength since repo fix f1014eb (map-style snapshots are triggered by the task that carries the main snapshot);
+    # `c10a` (the former negation witness) is a regression `example`, replayed by mp_trace.replay_c10a
+    "C10": ["error_position_map", "error_position", "error_position_prefix_iter", "take_snapshot_assertion_holds_map",
+            "snapshot_fields_map"],
     "C16": [],
     "C17": [],
 }
